@@ -17,20 +17,28 @@ for n in range(1, 21):
                 f"{sv.get('agent_changes_silent', '-')} | {e['wall_s']:.0f} s ({e['tier']}) |")
 table = ("| id | rules (instances on today's tree) | instances | catalogue: faults reported / refactorings silent | "
          "agent changes: reported / silent | wall of the last run |\n|---|---|---|---|---|---|\n" + '\n'.join(rows))
-srows = []
+srows, brows = [], []
 for d in sorted(os.listdir(f'{ROOT}/seeded')):
     m = json.load(open(f'{ROOT}/seeded/{d}/meta.json'))
+    if m.get('pending'):
+        continue
     cb = ', '.join(f"{w['property']} `{w['rule']}`" for w in m['caught_by'])
     imp = ', '.join(f"{w['property']}" for w in m.get('imprecise', []))
-    srows.append(f"| {d} | {m['property']} | {m['summary']} | {cb} | {imp or '-'} | {m.get('notes', '-')} |")
+    if m.get('benign'):
+        brows.append(f"| {d} | {m['property']} | {m['summary']} | {imp or 'all twenty silent'} | {m.get('notes', '-')} |")
+    else:
+        srows.append(f"| {d} | {m['property']} | {m['summary']} | {cb} | {imp or '-'} | {m.get('notes', '-')} |")
 seeded = open(f'{ROOT}/tools/design_section9_seeded.md').read() + '\n'.join(srows)
 s = open(f'{ROOT}/tools/design_section9.md').read().replace('@@TABLE@@', table).replace('@@SEEDED@@', seeded)
+benign = ('| id | written for | the change | checks that still answer | what the checks had to learn (where recorded) |\n|---|---|---|---|---|\n'
+          + '\n'.join(brows))
+s10 = open(f'{ROOT}/tools/design_section10.md').read().replace('@@BENIGN@@', benign)
 d = open(f'{ROOT}/DESIGN.md').read()
 marker = '-' * 93 + '\n\n## Appendix A'
 assert marker in d
 if '## 9. Build report' in d:
-    d = d[:d.index('## 9. Build report')] + s + '\n' + d[d.index(marker):]
+    d = d[:d.index('## 9. Build report')] + s + '\n' + s10 + '\n' + d[d.index(marker):]
 else:
-    d = d.replace(marker, s + '\n' + marker)
+    d = d.replace(marker, s + '\n' + s10 + '\n' + marker)
 open(f'{ROOT}/DESIGN.md', 'w').write(d)
-print('DESIGN.md section 9 regenerated,', len(d.splitlines()), 'lines')
+print('DESIGN.md sections 9 and 10 regenerated,', len(d.splitlines()), 'lines')
